@@ -7,6 +7,7 @@ mod c12;
 mod c13;
 mod c14;
 mod c17;
+mod c19;
 mod defs;
 mod enc;
 mod gen;
@@ -57,6 +58,7 @@ fn main() {
     }
     match args[1].as_str() {
         "child-load" => c17::child_main(),
+        "child-c19" => c19::child_main(&args[2..]),
         "gen" => {
             let prop = args[2].as_str();
             let thorough = args[3] == "thorough";
@@ -72,6 +74,7 @@ fn main() {
                 "C11" => c11::gen(&mut rng, thorough, &mut out),
                 "C12" => c12::gen(&mut rng, thorough, &mut out),
                 "C17" => c17::gen(&mut rng, thorough, &mut out),
+                "C19" => c19::gen(&mut rng, thorough, &mut out),
                 "C14" => c14::gen(&mut rng, thorough, &mut out),
                 "C13" => c13::gen(&mut rng, thorough, &mut out),
                 "SMOKE" => smoke::gen(&mut rng, thorough, &mut out),
